@@ -243,7 +243,8 @@ func (r Iterator[T]) Filter(p func(T) bool) Iterator[T] {
 			if hasNext() {
 
 				ret := fv.Get()
-				fv = r.Find(p)
+				fv = None[T]()
+				first = true
 				return ret
 			}
 			return r.nextOnEmpty()
